@@ -12,9 +12,10 @@ Record obs := mkObs {
   o_last : Z;                           (* GetLastObservedSkywayNonce *)
   o_height : Z;                         (* GetLastObservedEthereumBlockHeight.EthereumBlockHeight *)
   o_compass : Z;                        (* GetLatestCompassID *)
-  o_atts : list (Z * Z * list Z * bool);(* IterateAttestations: nonce, hash, Votes, Observed (store order) *)
-  o_vn : list (Z * Z);                  (* IterateValidatorLastEventNonces, by validator index *)
-  o_bal : list (Z * Z)                  (* minted balance of every receiver *)
+  (* the three lists are recorded only when they differ from the previous step's (None = unchanged) *)
+  o_atts : option (list (Z * Z * list Z * bool)); (* IterateAttestations: nonce, hash rank, Votes, Observed (store order) *)
+  o_vn : option (list (Z * Z));         (* IterateValidatorLastEventNonces, by validator index *)
+  o_bal : option (list (Z * Z))         (* minted balance of every receiver *)
 }.
 
 Inductive case := CHist (steps : list (op * obs)).
@@ -41,19 +42,27 @@ Fixpoint atts_eqb (l : list (Z * Z * att)) (m : list (Z * Z * list Z * bool)) : 
   | _, _ => false
   end.
 
-Definition obs_ok (s : state) (ok : bool) (o : obs) : bool :=
-  Bool.eqb ok (o_ok o) && (last_obs s =? o_last o) && (last_height s =? o_height o)
-  && (compass s =? o_compass o) && atts_eqb (atts s) (o_atts o)
-  && list_eqb zz_eqb (vnonce s) (o_vn o)
-  && forallb (fun kv => zget0 (bal s) (fst kv) =? snd kv) (o_bal o).
+Record prev := mkPrev { p_atts : list (Z * Z * list Z * bool); p_vn : list (Z * Z); p_bal : list (Z * Z) }.
 
-Fixpoint replay (s : state) (l : list (op * obs)) : bool :=
+Definition next_prev (p : prev) (o : obs) : prev :=
+  mkPrev (match o_atts o with Some x => x | None => p_atts p end)
+         (match o_vn o with Some x => x | None => p_vn p end)
+         (match o_bal o with Some x => x | None => p_bal p end).
+
+Definition obs_ok (s : state) (ok : bool) (o : obs) (p : prev) : bool :=
+  Bool.eqb ok (o_ok o) && (last_obs s =? o_last o) && (last_height s =? o_height o)
+  && (compass s =? o_compass o) && atts_eqb (atts s) (p_atts p)
+  && list_eqb zz_eqb (vnonce s) (p_vn p)
+  && forallb (fun kv => zget0 (bal s) (fst kv) =? snd kv) (p_bal p).
+
+Fixpoint replay (s : state) (p : prev) (l : list (op * obs)) : bool :=
   match l with
   | [] => true
   | (o, b) :: r =>
       let s' := step s o in
-      obs_ok s' (outcome s o) b && replay s' r
+      let p' := next_prev p b in
+      obs_ok s' (outcome s o) b p' && replay s' p' r
   end.
 
 Definition check (c : case) : bool :=
-  match c with CHist steps => replay init steps end.
+  match c with CHist steps => replay init (mkPrev [] [] []) steps end.
